@@ -247,6 +247,97 @@ theorem never_finalized_while_reachable_counterexample :
         (fun x => x.key == e.val.key)) = true := by
   decide
 
+/-! ### which context owns a value; where its finaliser runs; what is marked; raising finalisers -/
+
+/-- The model's `isolates` (mirror of the condition in `PushContext`): a context gets its own pool iff
+the policy asks for it or ANY hard limit — cpu, memory or time — is set. -/
+theorem isolates_iff (d : CtxDef) :
+    isolates d = true ↔ (d.policy = .isolate ∨ d.millis = true ∨ d.cpu = true ∨ d.mem = true) := by
+  unfold isolates
+  simp [Bool.or_eq_true, or_assoc]
+
+/-- A context that isolates OWNS a fresh pool (every value marked inside goes to that pool, the outer pools
+are untouched by the push); one that does not isolate changes no pool at all. -/
+theorem isolating_context_owns_pool (s : Rt) (d : CtxDef) (hf : s.fatal = false) :
+    (isolates d = true → (rstep s (.pushCtx d)).live = { pid := s.live.length + s.dead.length } :: s.live ∧
+        (rstep s (.pushCtx d)).frames = true :: s.frames) ∧
+    (isolates d = false → (rstep s (.pushCtx d)).live = s.live ∧ (rstep s (.pushCtx d)).frames = false :: s.frames) := by
+  constructor <;> intro hi <;> simp [rstep, hi, GcRuntime.prim, hf]
+
+example : isolates { mem := true } = true ∧ isolates { millis := true, policy := .share } = true ∧
+    isolates { policy := .share } = false ∧ isolates {} = false := by decide
+
+/-- Finalisers of values owned by a context run INSIDE it: whatever `finAll` (end of an isolating
+CallContext, Close) finalises is recorded as having run while exactly the current contexts were open. -/
+theorem finalizers_run_inside_current_context (s : Rt) (p : Pool) (rest : List Pool) (hs : s.live = p :: rest)
+    (hf : s.fatal = false) :
+    (GcRuntime.prim s .finAll).ran =
+      s.ran ++ List.replicate ((GcRuntime.prim s .finAll).log.length - s.log.length) s.frames.length := by
+  unfold GcRuntime.prim
+  simp only [hf, Bool.false_eq_true, if_false]
+  unfold onCurrent
+  rw [hs]
+  simp [List.map_const']
+
+/-- mirror of `(*UserData).MarkFlags`: a releasable userdata is marked for release WHATEVER its metatable
+(none, one without `__gc`, one with `__gc`) -/
+theorem releasable_always_marked_release (hasMeta hasGc : Bool) :
+    (userDataMarkFlags true hasMeta hasGc).2 = true ∧
+    (userDataMarkFlags true hasMeta hasGc).1 = (hasMeta && hasGc) := ⟨rfl, rfl⟩
+
+/-- … and is therefore released by the close of its pool: in any reachable pool, after marking `o` with
+those flags, `popRel` releases the new epoch (exactly once, by `release_exactly_once_by_close`). -/
+theorem releasable_userdata_released_by_close (us : List Use) (o : Obj) (hasMeta hasGc : Bool)
+    (hreg : (ClonePool.run us).reg ≠ none)
+    (hf : (ClonePool.use (ClonePool.run us) (.mark o (hasMeta && hasGc) true)).fatal = false) :
+    (ClonePool.run us).last + 1 ∈
+      relOrders (ClonePool.use (ClonePool.use (ClonePool.run us) (.mark o (hasMeta && hasGc) true)) .popRel).tr := by
+  generalize ClonePool.run us = p at *
+  have hpf : p.fatal = false := by
+    by_cases h : p.fatal = true
+    · rw [use_fatal h] at hf; rw [hf] at h; cases h
+    · simpa using h
+  obtain ⟨rg, hrg⟩ : ∃ rg, p.reg = some rg := by
+    cases h : p.reg with
+    | none => exact absurd h hreg
+    | some rg => exact ⟨rg, rfl⟩
+  refine popRel_covers hf (Or.inl ⟨Entry.mk (Obj.mk o.key (p.last + 1) true p.pid) (p.last + 1) (!(hasMeta && hasGc)) false, ?_, rfl, rfl⟩)
+  rw [use_of_not_fatal hpf]
+  unfold ClonePool.mark regL
+  simp [hrg]
+
+example : (ClonePool.run [.mark a true false]).reg ≠ none ∧
+    (ClonePool.use (ClonePool.run [.mark a true false]) (.mark b false true)).fatal = false := by decide
+
+/-- mirror of the loop of `runFinalizers`: the WHOLE batch is run whichever finalisers raise; exactly the
+raising ones are reported -/
+theorem finalizer_error_does_not_skip (raises : Nat → Bool) (batch : List TEv) :
+    (runFinalizers raises batch).1 = batch ∧
+    (runFinalizers raises batch).2 =
+      batch.filterMap (fun e => match e with | .fin _ v n => if raises n then some v.key else none | _ => none) := by
+  refine ⟨runFinalizers_fst raises batch, ?_⟩
+  induction batch with
+  | nil => rfl
+  | cons e t ih =>
+    cases e with
+    | fin k v n => by_cases h : raises n <;> simp [runFinalizers, ih, h]
+    | mark _ _ _ _ => simpa [runFinalizers] using ih
+    | unmark _ => simpa [runFinalizers] using ih
+    | fired _ => simpa [runFinalizers] using ih
+    | rel _ _ _ => simpa [runFinalizers] using ih
+    | skip _ _ => simpa [runFinalizers] using ih
+
+/-- … hence what a runtime step adds to the log does not depend on which finalisers raise: it is exactly what
+the pool handed out. -/
+theorem log_independent_of_raising (s : Rt) (p : Pool) (rest : List Pool) (hs : s.live = p :: rest) (u : Use) (d : Nat) :
+    (onCurrent s u d).log = s.log ++ (delta p (ClonePool.use p u)).filter isLogEv :=
+  (onCurrent_facts s p rest hs u d).1
+
+example : (GcRuntime.run [.prim (.mark a true false), .prim (.setRaise 1), .prim (.mark b true false), .close]).log =
+      [.fin .af ⟨2, 2, true, 0⟩ 2, .fin .af a1 1] ∧
+    (GcRuntime.run [.prim (.mark a true false), .prim (.setRaise 1), .prim (.mark b true false), .close]).warned = [1] := by
+  decide
+
 /-! ### defects of the current code beyond the property's wording -/
 
 /-- FALSE of the current code: "a marked value can be marked again".  Marking, in the pool of one
